@@ -66,9 +66,13 @@ def gen_history(rng, focus, var_share=0.0):
             steps.append("C:%s:%s:%s" % (b["key"], b["rt"], b["cols"]))
         created.add(b["key"])
         rows = []
+        # a variable-length request stays inside ONE year file: FlushCommandsToWAL visits the files of
+        # a transaction group in Go map order, so which file's records are already written at a crash
+        # point in the middle (visible as replay duplicates) is not determined by the request
+        jump_all = b["rt"] == "v" and rng.random() < 0.15
         for _ in range(1 + rng.randrange(4)):
             t = rng.choice(pools[b["key"]])
-            if rng.random() < 0.15:
+            if jump_all or (b["rt"] != "v" and rng.random() < 0.15):
                 t += 366 * 86400     # another year file
             ns = 0
             if b["rt"] == "v":
